@@ -198,6 +198,7 @@ ACT_PRE = dict(
 
 @contract("modifiers.py", "AdapterCutter.masked_read", props=["C03"])
 def masked_read(c):
+    c.runtime = {"module": "cmods", "name": "rounds", "replay_count": 20000}
     c.types(read=Record, matches=MatchesT)
     c.returns(Record)
     c.spec(mt_spec)
@@ -216,6 +217,7 @@ def masked_read(c):
 
 @contract("modifiers.py", "AdapterCutter.lowercased_read", props=["C03"])
 def lowercased_read(c):
+    c.runtime = {"module": "cmods", "name": "rounds", "replay_count": 20000}
     c.types(read=Record, matches=MatchesT)
     c.returns(Record)
     c.spec(mt_spec)
@@ -235,6 +237,7 @@ def lowercased_read(c):
 
 @contract("modifiers.py", "AdapterCutter.cropped_read", props=["C03"])
 def cropped_read(c):
+    c.runtime = {"module": "cmods", "name": "rounds", "replay_count": 20000}
     c.types(read=Record, matches=MatchesT)
     c.returns(Record)
     c.spec(mt_spec)
@@ -247,6 +250,7 @@ def cropped_read(c):
 
 @contract("modifiers.py", "AdapterCutter.trim_but_retain_adapter", props=["C03"])
 def trim_but_retain_adapter(c):
+    c.runtime = {"module": "cmods", "name": "rounds", "replay_count": 20000}
     c.types(read=Record, matches=MatchesT)
     c.returns(Record)
     c.spec(mt_spec)
